@@ -1187,6 +1187,11 @@ func (m *Memberlist) suspectNode(s *suspect) {
 
 	// If this is us we need to refute, otherwise re-broadcast
 	if state.Name == m.config.Name {
+		// If we are leaving there is nothing to refute: bumping our
+		// incarnation now would make the pending leave message stale.
+		if m.hasLeft() {
+			return
+		}
 		m.refute(state, s.Incarnation)
 		m.logger.Printf("[WARN] memberlist: Refuting a suspect message (from: %s)", s.From)
 		return // Do not mark ourself suspect
